@@ -322,6 +322,27 @@ void h_mark(void) {
   ASSERT(cv_mk_calls == 2 * old_len && (NS == 0 || cv_mk_hits == (slot(t, gh_s)->h != 0)), "[C01] Table_Mark passes every stored key and every stored value to the callback exactly once, and nothing from an empty slot");
   COVER(NS <= 1 || old_len >= 1, "mark of a non-empty table");
 }
+/* C14: show of a map writes "key:value" for every binding exactly once, in iteration order, separated by ", ";
+ * each piece goes to the sink at the position the previous one returned (print_to is cut by a recording contract) */
+static int cv_sh_calls, cv_sh_pairs, cv_sh_seps, cv_sh_bad, cv_sh_pos; static var cv_sh_out; static var cv_sh_k[8], cv_sh_v[8];
+static int cv_sh_streq(const char* a, const char* b) { size_t i = 0; while (a[i] != 0 && a[i] == b[i]) i++; return a[i] == b[i]; }
+int print_to_with(var out, int pos, const char* fmt, var args) {
+  if (out != cv_sh_out || pos != cv_sh_pos) cv_sh_bad++;
+  cv_sh_calls++;
+  if (cv_sh_streq(fmt, "%$:%$")) { if (cv_sh_pairs < 8) { cv_sh_k[cv_sh_pairs] = ((struct Tuple*)args)->items[0]; cv_sh_v[cv_sh_pairs] = ((struct Tuple*)args)->items[1]; } if (cv_sh_seps != cv_sh_pairs) cv_sh_bad++; cv_sh_pairs++; }
+  else if (cv_sh_streq(fmt, ", ")) { cv_sh_seps++; if (cv_sh_seps != cv_sh_pairs) cv_sh_bad++; }
+  cv_sh_pos += 1 + (cv_sh_calls % 3);
+  return cv_sh_pos;
+}
+void h_show(void) {
+  arbitrary_table(); cv_sh_out = &KX; cv_sh_pos = nondet_int(); __CPROVER_assume(cv_sh_pos >= 0 && cv_sh_pos < 1000);
+  int r = Table_Show(t, cv_sh_out, cv_sh_pos);
+  ASSERT(cv_sh_pairs == old_len && cv_sh_seps == (old_len ? old_len - 1 : 0) && cv_sh_bad == 0, "[C14] show of a Table writes every binding once as key:value, separated by commas, each piece at the position the previous one returned");
+  int j = 0;
+  for (size_t i = 0; i < NS; i++) if (slot(t, i)->h != 0) { ASSERT(j < 8 && cv_sh_k[j] == (var)&slot(t, i)->k && cv_sh_v[j] == (var)&slot(t, i)->v, "[C14] the bindings are shown in iteration order, each key with its own value"); j++; }
+  ASSERT(r == cv_sh_pos && cv_sh_calls == cv_sh_pairs + cv_sh_seps + 2, "[C14] show returns the position after the closing brace");
+  COVER(NS <= 1 || old_len >= 2, "show of a table with several bindings");
+}
 
 /* Table_Assign (copy of another map): the old contents are finalised and released, a fresh zeroed slot array of the ideal
  * capacity is installed and every binding of the operand is inserted once, copying (move = false); set_move by its contract */
